@@ -6,6 +6,7 @@ import (
 	"go/types"
 	"strings"
 
+	"gengoverif/checker/internal/cfgx"
 	"gengoverif/checker/internal/core"
 )
 
@@ -364,6 +365,7 @@ func runC11(p *core.Program, r *core.Report) {
 	if nf == nil {
 		r.Anchor("R5", "pkg/namer.(*rawNamer).Name")
 	} else {
+		nf = flatten(p, nf) // the suffix may be rendered by a private helper
 		ninfo := nf.Info()
 		written := constArgsOf(ninfo, nf.Body, "(*strings.Builder).WriteString", "(*strings.Builder).WriteByte", "(*strings.Builder).WriteRune")
 		hasAt := len(core.CallsTo(ninfo, nf.Body, true, "(*go/types.TypeParamList).At")) > 0
@@ -389,10 +391,12 @@ func namerRewriteRule(p *core.Program, r *core.Report, rule string) {
 		r.Anchor(rule, "pkg/namer.(*rawNamer).Name / processName")
 		return
 	}
+	nf = flatten(p, nf)
 	info := nf.Info()
 	g := graph(nf)
-	// the builder that received processName(...)
-	var builder *types.Var
+	// the carrier of the rewritten name: the builder that received processName(...) through a Write,
+	// or the string variable defined from it (later `+=` keeps it)
+	var carrier *types.Var
 	var pcall *ast.CallExpr
 	for _, c := range core.Calls(nf.Body, true) {
 		if core.CalleeFunc(info, c) != pn.Obj() {
@@ -401,14 +405,35 @@ func namerRewriteRule(p *core.Program, r *core.Report, rule string) {
 		pcall = c
 		path := core.PathTo(nf.Body, c)
 		for k := len(path) - 1; k >= 0; k-- {
-			if wc, ok := path[k].(*ast.CallExpr); ok && wc != c && strings.HasSuffix(core.CalleeName(info, wc), ").WriteString") {
-				builder = core.VarOf(info, recvOf(wc))
+			switch x := path[k].(type) {
+			case *ast.CallExpr:
+				if x != c && strings.HasSuffix(core.CalleeName(info, x), ").WriteString") {
+					carrier = core.VarOf(info, recvOf(x))
+				}
+			case *ast.AssignStmt:
+				if carrier == nil && len(x.Lhs) == 1 && len(x.Rhs) == 1 && ast.Unparen(x.Rhs[0]) == ast.Expr(c) {
+					carrier = core.VarOf(info, x.Lhs[0])
+				}
 			}
 		}
 	}
-	if builder == nil || pcall == nil {
+	if carrier == nil || pcall == nil {
 		r.Bad(rule, nf, "the namer rewrites the reference's name through processName", nf.Node().Pos(), "no `tn.WriteString(n.processName(typeName.Name()))`: type arguments embedded in a generic instantiation's name are neither shortened nor imported")
 		return
+	}
+	// the carrier is only ever extended, never replaced by something else
+	for _, d := range core.DefsOf(info, nf.Body, carrier) {
+		if d.Kind == "assign" || d.Kind == "define" {
+			if d.Rhs != nil && ast.Unparen(d.Rhs) != ast.Expr(pcall) {
+				if _, isLit := ast.Unparen(d.Rhs).(*ast.UnaryExpr); !isLit {
+					if cl, isCL := ast.Unparen(d.Rhs).(*ast.CompositeLit); !isCL || len(cl.Elts) != 0 {
+						if c := core.AsCall(info, d.Rhs, "builtin.new"); c == nil {
+							r.Bad(rule, nf, "the rewritten name is not replaced afterwards", d.Stmt.Pos(), "`"+core.ExprStr(d.Stmt)+"` overwrites the variable that holds the rewritten name")
+						}
+					}
+				}
+			}
+		}
 	}
 	// processName receives the reference's own name
 	okArg := false
@@ -421,6 +446,30 @@ func namerRewriteRule(p *core.Program, r *core.Report, rule string) {
 	}
 	r.Check(okArg, rule, nf, "processName receives the reference's own name", pcall.Pos(), "n.processName(typeName.Name())", "processName is not applied to the Name() of the reference being rendered")
 	pp := g.PointOf(pcall)
+	isEmptyFact := func(fct cfgx.Fact) bool {
+		if fct.Tag != nil {
+			return false
+		}
+		// carrier.Len() == 0 / len(carrier) == 0 / carrier == ""
+		if b, ok := ast.Unparen(fct.Cond).(*ast.BinaryExpr); ok && (b.Op == token.EQL || b.Op == token.NEQ) {
+			if core.VarOf(info, b.X) == carrier && constStrIs(info, b.Y, "") {
+				return (b.Op == token.EQL) == fct.Val
+			}
+		}
+		x, op, c, ok := cmpConst(info, fct.Cond)
+		if !ok || c != 0 || !((op == token.NEQ && !fct.Val) || (op == token.EQL && fct.Val) || (op == token.GTR && !fct.Val)) {
+			return false
+		}
+		if lc, ok := ast.Unparen(x).(*ast.CallExpr); ok {
+			if strings.HasSuffix(core.CalleeName(info, lc), ").Len") && core.VarOf(info, recvOf(lc)) == carrier {
+				return true
+			}
+			if core.CalleeName(info, lc) == "builtin.len" && len(lc.Args) == 1 && core.VarOf(info, lc.Args[0]) == carrier {
+				return true
+			}
+		}
+		return false
+	}
 	for _, rp := range g.Points(func(n ast.Node) bool { _, ok := n.(*ast.ReturnStmt); return ok }) {
 		ret := rp.Node().(*ast.ReturnStmt)
 		if len(ret.Results) != 1 {
@@ -439,22 +488,19 @@ func namerRewriteRule(p *core.Program, r *core.Report, rule string) {
 				}
 			}
 		}
-		uses := core.Mentions(info, e, builder) && g.Dominates(pp, rp)
+		uses := core.Mentions(info, e, carrier) && g.Dominates(pp, rp)
 		if !uses {
 			// the only fallback: the reference's String() when the rewritten name is empty
 			fallback := false
 			for _, fct := range g.FactsAt(rp) {
-				x, op, c, ok := cmpConst(info, fct.Cond)
-				if ok && c == 0 && ((op == token.NEQ && !fct.Val) || (op == token.EQL && fct.Val)) {
-					if lc, ok := ast.Unparen(x).(*ast.CallExpr); ok && strings.HasSuffix(core.CalleeName(info, lc), ").Len") && core.VarOf(info, recvOf(lc)) == builder {
-						fallback = true
-					}
+				if isEmptyFact(fct) {
+					fallback = true
 				}
 			}
 			r.Check(fallback && g.Dominates(pp, rp), rule, nf, construct, ret.Pos(), "fallback for an empty rewritten name", "the namer returns a name that did not go through processName (raw Name()/String() of the reference): for a generic instantiation the embedded type arguments keep their full package paths (does not parse) and their imports are not registered")
 			continue
 		}
-		r.OK(rule, nf, construct, ret.Pos(), "built from the builder that received processName(...)")
+		r.OK(rule, nf, construct, ret.Pos(), "built from the value that received processName(...)")
 	}
 }
 
